@@ -18,7 +18,7 @@ def build(tier, seed, exclude):
     quick = tier == "quick"
     to = 110 if quick else 600
     params = ", ".join(f"c{i}: int" for i in range(NS))
-    pre = [" and ".join(f"0 <= c{i} < 3" for i in range(NS))]
+    pre = [" and ".join(f"0 <= c{i} < 4" for i in range(NS))]
     ch = "[" + ", ".join(f"T.real(c{i})" for i in range(NS)) + "]"
     for shape in ("indep", "forkjoin", "wide"):
         for k in (1, 2, 3):
@@ -36,4 +36,4 @@ def build(tier, seed, exclude):
         err = AP.c16("wide", [0, 0, 0, 0, 0, 0], 2)
         return T.fail(err) if err else True
     """)
-    return g.spec(bounds={"shapes": ["indep", "forkjoin", "wide (4 independent nodes)"], "k": "1..3", "schedule": f"{NS} ternary decisions"})
+    return g.spec(bounds={"shapes": ["indep", "forkjoin", "wide (4 independent nodes)"], "k": "1..3", "schedule": f"{NS} four-way decisions"})
